@@ -90,7 +90,74 @@ Proof.
 Qed.
 
 (* ------------------------------------------------------------------------------------------------ *)
-(* 3. def_shape                                                                                      *)
+(* 3. pwalk, pgroups_b                                                                               *)
+(* ------------------------------------------------------------------------------------------------ *)
+
+Lemma pplain_of_flags : forall t, is_lparen t = false -> is_rparen t = false -> pplain t = true.
+Proof. intros t Hl Hr. unfold pplain. rewrite Hl, Hr. reflexivity. Qed.
+
+(* leaving a parenthesis opened before ts: ts splits at the matching close parenthesis *)
+Lemma pwalk_split : forall n top ts d res,
+  length ts <= n -> pwalk top ts (S d) = Some res -> res <= d ->
+  exists g c r, ts = g ++ c :: r /\ is_rparen c = true /\ pinner g /\ pwalk top r d = Some res.
+Proof.
+  induction n as [| n IHn]; intros top ts d res Hlen Hw Hres.
+  - destruct ts as [| t r]; simpl in Hlen; [| lia].
+    simpl in Hw. inversion Hw. lia.
+  - destruct ts as [| t r].
+    + simpl in Hw. inversion Hw. lia.
+    + simpl in Hlen. simpl in Hw.
+      destruct (is_lparen t) eqn:Hl.
+      * destruct (IHn top r (S d) res) as (g1 & c1 & r1 & Er & Hc1 & Hg1 & Hw1); [lia | exact Hw | lia |].
+        assert (Hlen1 : length r1 <= n).
+        { subst r. rewrite app_length in Hlen. simpl in Hlen. lia. }
+        destruct (IHn top r1 d res) as (g2 & c2 & r2 & Er1 & Hc2 & Hg2 & Hw2); [lia | exact Hw1 | lia |].
+        exists (t :: g1 ++ c1 :: g2), c2, r2. repeat split.
+        -- subst r r1. simpl. rewrite <- app_assoc. reflexivity.
+        -- exact Hc2.
+        -- apply pinner_group; assumption.
+        -- exact Hw2.
+      * destruct (is_rparen t) eqn:Hr.
+        -- exists [], t, r. repeat split; [exact Hr | constructor | exact Hw].
+        -- destruct (IHn top r d res) as (g1 & c1 & r1 & Er & Hc1 & Hg1 & Hw1); [lia | exact Hw | lia |].
+           exists (t :: g1), c1, r1. repeat split.
+           ++ subst r. reflexivity.
+           ++ exact Hc1.
+           ++ apply pinner_plain; [apply pplain_of_flags; assumption | exact Hg1].
+           ++ exact Hw1.
+Qed.
+
+Lemma pwalk_false_groups : forall n ts,
+  length ts <= n -> pwalk false ts 0 = Some 0 -> ts = [] \/ pgroups ts.
+Proof.
+  induction n as [| n IHn]; intros ts Hlen Hw.
+  - destruct ts; [left; reflexivity | simpl in Hlen; lia].
+  - destruct ts as [| t r]; [left; reflexivity |]. right.
+    simpl in Hlen. simpl in Hw.
+    destruct (is_lparen t) eqn:Hl.
+    + destruct (pwalk_split (length r) false r 0 0) as (g & c & r2 & Er & Hc & Hg & Hw2);
+        [lia | exact Hw | lia |].
+      subst r.
+      assert (Hgrp : pgroup (t :: g ++ [c])) by (apply pgroup_intro; assumption).
+      destruct (IHn r2) as [E2 | G2]; [| exact Hw2 | |].
+      * rewrite app_length in Hlen. simpl in Hlen. lia.
+      * subst r2. apply pgroups_one. exact Hgrp.
+      * replace (t :: g ++ c :: r2) with ((t :: g ++ [c]) ++ r2).
+        -- apply pgroups_more; assumption.
+        -- simpl. rewrite <- app_assoc. reflexivity.
+    + destruct (is_rparen t) eqn:Hr; discriminate.
+Qed.
+
+Lemma pgroups_b_sound : forall ts, pgroups_b ts = true -> pgroups ts.
+Proof.
+  intros ts H. unfold pgroups_b in H.
+  destruct ts as [| t r]; [discriminate |].
+  destruct (pwalk false (t :: r) 0) as [[| k] |] eqn:Hw; try discriminate.
+  destruct (pwalk_false_groups (length (t :: r)) (t :: r)) as [E | G]; [lia | exact Hw | discriminate | exact G].
+Qed.
+
+(* ------------------------------------------------------------------------------------------------ *)
+(* 3b. def_shape, join_def, head_ok                                                                  *)
 (* ------------------------------------------------------------------------------------------------ *)
 
 (* the local function of def_shape, named *)
@@ -104,7 +171,7 @@ Definition def_go (pre : nat) (r : list token) : option (nat * nat) :=
         match rest with
         | [] => None
         | x :: _ =>
-            if groups_b gs && no_def_b gs && negb (is_lparen x) && no_def_b rest
+            if pgroups_b gs && no_def_b gs && negb (is_lparen x) && no_def_b rest
             then Some (pre + 1, pre + 2 + n) else None
         end
       else None
@@ -121,7 +188,7 @@ Proof. intros l. reflexivity. Qed.
 Lemma def_go_sound : forall pre r nmo heo,
   def_go pre r = Some (nmo, heo) ->
   exists d nm gs rest,
-    r = d :: nm :: gs ++ rest /\ kw_is d s_def = true /\ is_name nm = true /\ groups gs /\ no_def gs /\
+    r = d :: nm :: gs ++ rest /\ kw_is d s_def = true /\ is_name nm = true /\ pgroups gs /\ no_def gs /\
     rest <> [] /\ is_lparen (hd nm rest) = false /\ no_def rest /\
     nmo = pre + 1 /\ heo = pre + 2 + length gs.
 Proof.
@@ -138,7 +205,7 @@ Proof.
   set (n := groups_len r2 0%Z) in *. clearbody n.
   set (gs := firstn n r2) in *. set (after := skipn n r2) in *. clearbody gs after.
   destruct after as [| x after']; [discriminate |].
-  destruct (groups_b gs && no_def_b gs && negb (is_lparen x) && no_def_b (x :: after')) eqn:Hchk; [| discriminate].
+  destruct (pgroups_b gs && no_def_b gs && negb (is_lparen x) && no_def_b (x :: after')) eqn:Hchk; [| discriminate].
   apply andb_true_iff in Hchk. destruct Hchk as [Hchk Hndr].
   apply andb_true_iff in Hchk. destruct Hchk as [Hchk Hlp].
   apply andb_true_iff in Hchk. destruct Hchk as [Hgs Hndg].
@@ -147,7 +214,7 @@ Proof.
   - rewrite Hfs. reflexivity.
   - exact Hd.
   - exact Hnm.
-  - apply groups_b_sound. exact Hgs.
+  - apply pgroups_b_sound. exact Hgs.
   - apply no_def_b_sound. exact Hndg.
   - discriminate.
   - apply negb_true_iff in Hlp. exact Hlp.
@@ -155,17 +222,89 @@ Proof.
   - rewrite Hlen; [reflexivity | discriminate].
 Qed.
 
-Lemma def_shape_sound : forall l nmo heo, def_shape l = Some (nmo, heo) -> def_line l nmo heo.
+Lemma def_shape_sound : forall hl l nmo heo,
+  def_shape l = Some (nmo, heo) -> Forall (fun t => t_line t = hl) (skipn heo l) -> def_line hl l nmo heo.
 Proof.
-  intros l nmo heo H. rewrite def_shape_unfold in H.
+  intros hl l nmo heo H Hrest. rewrite def_shape_unfold in H.
   destruct l as [| a r]; [discriminate |].
   destruct (kw_is a s_async) eqn:Ha.
   - apply def_go_sound in H.
     destruct H as (d & nm & gs & rest & Er & Hd & Hnm & Hgs & Hndg & Hne & Hlp & Hndr & Enmo & Eheo).
-    subst r nmo heo. apply dl_async; assumption.
+    subst r nmo heo.
+    change (1 + 2 + length gs) with (S (S (S (length gs)))) in Hrest. cbn [skipn] in Hrest.
+    rewrite skipn_app_exact in Hrest.
+    apply dl_async; assumption.
   - apply def_go_sound in H.
     destruct H as (d & nm & gs & rest & Er & Hd & Hnm & Hgs & Hndg & Hne & Hlp & Hndr & Enmo & Eheo).
-    rewrite Er. subst nmo heo. apply dl_def; assumption.
+    rewrite Er in *. subst nmo heo.
+    change (0 + 2 + length gs) with (S (S (length gs))) in Hrest. cbn [skipn] in Hrest.
+    rewrite skipn_app_exact in Hrest.
+    apply dl_def; assumption.
+Qed.
+
+Lemma join_def_spec : forall fuel acc lines hdr rest1,
+  join_def fuel acc lines = Some (hdr, rest1) ->
+  exists front, lines = front ++ rest1 /\ hdr = acc ++ concat front.
+Proof.
+  induction fuel as [| f IHf]; intros acc lines hdr rest1 H; cbn [join_def] in H.
+  - destruct (def_shape acc) as [p |]; [| discriminate].
+    inversion H; subst hdr rest1. exists []. split; [reflexivity | cbn [concat]; rewrite app_nil_r; reflexivity].
+  - destruct (def_shape acc) as [p |].
+    + inversion H; subst hdr rest1. exists []. split; [reflexivity | cbn [concat]; rewrite app_nil_r; reflexivity].
+    + destruct lines as [| l r]; [discriminate |].
+      apply IHf in H. destruct H as (front & Er & Ehdr).
+      exists (l :: front). split.
+      * rewrite Er. reflexivity.
+      * cbn [concat]. rewrite Ehdr, app_assoc. reflexivity.
+Qed.
+
+Lemma mono_ok_sound : forall c l, mono_ok c l = true ->
+  forall i a b, nth_error l i = Some a -> nth_error l (S i) = Some b ->
+    (t_line a <= t_line b)%Z /\ ((t_line a < t_line b)%Z -> (c < t_col b)%Z).
+Proof.
+  intros c. induction l as [| x r IHr]; intros H i a b Ha Hb.
+  - destruct i; discriminate.
+  - destruct r as [| y r'].
+    + destruct i; simpl in Hb; [discriminate | destruct i; discriminate].
+    + cbn [mono_ok] in H.
+      apply andb_true_iff in H. destruct H as [H Hrest].
+      apply andb_true_iff in H. destruct H as [Hle Hcol].
+      destruct i as [| i'].
+      * simpl in Ha, Hb. inversion Ha; subst a. inversion Hb; subst b.
+        apply Z.leb_le in Hle. split; [exact Hle |].
+        intros Hlt. apply orb_true_iff in Hcol. destruct Hcol as [Hn | Hc].
+        -- apply negb_true_iff in Hn. apply Z.ltb_ge in Hn. lia.
+        -- apply Z.ltb_lt in Hc. exact Hc.
+      * apply (IHr Hrest i' a b); [exact Ha | exact Hb].
+Qed.
+
+Lemma head_ok_body : forall c ln hl l,
+  head_ok c ln hl l = true ->
+  l <> [] /\
+  (line_no l =? ln)%Z && (line_col l =? c)%Z && (t_line (last l dummy_tok) =? hl)%Z && mono_ok c l
+    && forallb (fun t => negb (ends_with_str [92%Z; 10%Z] (t_value t))) l
+    && negb (kw_is (last l dummy_tok) s_async) = true.
+Proof.
+  intros c ln hl l H. destruct l as [| t r]; [discriminate |].
+  split; [discriminate | exact H].
+Qed.
+
+Lemma head_ok_sound : forall c ln hl l, head_ok c ln hl l = true -> head_at c ln hl l.
+Proof.
+  intros c ln hl l H. apply head_ok_body in H. destruct H as [Hne H].
+  apply andb_true_iff in H. destruct H as [H Hlast].
+  apply andb_true_iff in H. destruct H as [H Hcont].
+  apply andb_true_iff in H. destruct H as [H Hmono].
+  apply andb_true_iff in H. destruct H as [H Hhl].
+  apply andb_true_iff in H. destruct H as [Hln Hcol].
+  unfold head_at. split; [exact Hne |]. split; [| split; [| split; [| split; [| split]]]].
+  - apply Z.eqb_eq in Hln. exact Hln.
+  - apply Z.eqb_eq in Hcol. exact Hcol.
+  - apply Z.eqb_eq in Hhl. exact Hhl.
+  - apply mono_ok_sound. exact Hmono.
+  - unfold no_continuation. apply Forall_forall. intros x Hx. rewrite forallb_forall in Hcont.
+    apply negb_true_iff. apply Hcont. exact Hx.
+  - apply negb_true_iff in Hlast. exact Hlast.
 Qed.
 
 (* ------------------------------------------------------------------------------------------------ *)
@@ -182,9 +321,6 @@ Proof.
   cbn [py_block] in H.
   destruct lines as [| l rest0]; [discriminate |].
   cbv zeta in H.
-  destruct (line_ok c (line_no l) l && (lo <? line_no l)%Z) eqn:Hok; cbn [negb] in H; [| discriminate].
-  apply andb_true_iff in Hok. destruct Hok as [Hline Hlo].
-  apply line_ok_sound in Hline. apply Z.ltb_lt in Hlo.
   match type of H with
   | match ?e with _ => _ end = _ => destruct e as [[[[ds1 rest1] mid] used1] |] eqn:Hentry; [| discriminate]
   end.
@@ -192,39 +328,62 @@ Proof.
   assert (Hent : exists front1,
             l :: rest0 = front1 ++ rest1 /\ front1 <> [] /\ used1 = length (concat front1) /\
             pentry c off lo (concat front1) ds1 mid).
-  { destruct rest0 as [| l2 rest0'].
-    - destruct (no_def_b l) eqn:Hnd; [| discriminate].
-      inversion Hentry; subst ds1 rest1 mid used1.
-      exists [l]. cbn [concat]. rewrite (app_nil_r l). split; [reflexivity |]. split; [discriminate |].
-      split; [reflexivity |].
-      apply pe_line; [exact Hline | exact Hlo | apply no_def_b_sound; exact Hnd].
-    - destruct (c <? line_col l2)%Z eqn:Hdeep.
-      + apply Z.ltb_lt in Hdeep.
-        destruct (py_block f (line_col l2) (off + length l) (line_no l) (l2 :: rest0'))
-          as [[[[dsS restS] hiS] usedS] |] eqn:Hsub; [| discriminate].
-        apply IHf in Hsub. destruct Hsub as (frontS & EfS & HneS & EuS & HpbS).
-        destruct (def_shape l) as [[nmo heo] |] eqn:Hds.
-        * inversion Hentry; subst ds1 rest1 mid used1. clear Hentry.
-          exists (l :: frontS). cbn [concat]. split; [| split; [| split]].
-          -- rewrite EfS. reflexivity.
-          -- discriminate.
-          -- rewrite app_length, EuS. reflexivity.
-          -- rewrite EuS.
-             apply (pe_def c off lo l (line_no l) nmo heo (line_col l2) (concat frontS) dsS hiS);
-               [exact Hline | exact Hlo | apply def_shape_sound; exact Hds | exact Hdeep | exact HpbS].
-        * destruct (no_def_b l) eqn:Hnd; [| discriminate].
+  { destruct (starts_def l) eqn:Hsd.
+    - (* a definition: header lines joined, then the suite *)
+      destruct (join_def (length rest0) l rest0) as [[hdr restJ] |] eqn:Hj; [| discriminate].
+      apply join_def_spec in Hj. destruct Hj as (frontJ & EJ & Ehdr).
+      destruct (def_shape hdr) as [[nmo heo] |] eqn:Hds; [| discriminate].
+      destruct restJ as [| l2 restJ']; [discriminate |].
+      set (hl := t_line (last hdr dummy_tok)) in *.
+      destruct (head_ok c (line_no l) hl hdr && (lo <? line_no l)%Z
+                && forallb (fun t => (t_line t =? hl)%Z) (skipn heo hdr) && (c <? line_col l2)%Z) eqn:Hchk;
+        [| discriminate].
+      apply andb_true_iff in Hchk. destruct Hchk as [Hchk Hdeep].
+      apply andb_true_iff in Hchk. destruct Hchk as [Hchk Hrest].
+      apply andb_true_iff in Hchk. destruct Hchk as [Hhead Hlo].
+      apply head_ok_sound in Hhead. apply Z.ltb_lt in Hlo. apply Z.ltb_lt in Hdeep.
+      assert (Hrest' : Forall (fun t => t_line t = hl) (skipn heo hdr)).
+      { apply Forall_forall. intros x Hx. rewrite forallb_forall in Hrest. apply Z.eqb_eq. apply Hrest. exact Hx. }
+      destruct (py_block f (line_col l2) (off + length hdr) hl (l2 :: restJ'))
+        as [[[[dsS restS] hiS] usedS] |] eqn:Hsub; [| discriminate].
+      apply IHf in Hsub. destruct Hsub as (frontS & EfS & HneS & EuS & HpbS).
+      inversion Hentry; subst ds1 rest1 mid used1. clear Hentry.
+      assert (Econcat : concat ((l :: frontJ) ++ frontS) = hdr ++ concat frontS).
+      { rewrite concat_app. cbn [concat]. rewrite Ehdr. reflexivity. }
+      exists ((l :: frontJ) ++ frontS). rewrite Econcat. split; [| split; [| split]].
+      + rewrite EJ, EfS. cbn [app]. rewrite <- app_assoc. reflexivity.
+      + discriminate.
+      + rewrite app_length, EuS. reflexivity.
+      + rewrite EuS.
+        apply (pe_def c off lo hdr (line_no l) hl nmo heo (line_col l2) (concat frontS) dsS hiS);
+          [exact Hhead | exact Hlo | apply def_shape_sound; [exact Hds | exact Hrest'] | exact Hdeep | exact HpbS].
+    - (* a plain line, possibly with a deeper block *)
+      destruct (line_ok c (line_no l) l && (lo <? line_no l)%Z && no_def_b l) eqn:Hok; cbn [negb] in Hentry;
+        [| discriminate].
+      apply andb_true_iff in Hok. destruct Hok as [Hok Hnd].
+      apply andb_true_iff in Hok. destruct Hok as [Hline Hlo].
+      apply line_ok_sound in Hline. apply Z.ltb_lt in Hlo. apply no_def_b_sound in Hnd.
+      destruct rest0 as [| l2 rest0'].
+      + inversion Hentry; subst ds1 rest1 mid used1.
+        exists [l]. cbn [concat]. rewrite (app_nil_r l). split; [reflexivity |]. split; [discriminate |].
+        split; [reflexivity |].
+        apply pe_line; [exact Hline | exact Hlo | exact Hnd].
+      + destruct (c <? line_col l2)%Z eqn:Hdeep.
+        * apply Z.ltb_lt in Hdeep.
+          destruct (py_block f (line_col l2) (off + length l) (line_no l) (l2 :: rest0'))
+            as [[[[dsS restS] hiS] usedS] |] eqn:Hsub; [| discriminate].
+          apply IHf in Hsub. destruct Hsub as (frontS & EfS & HneS & EuS & HpbS).
           inversion Hentry; subst ds1 rest1 mid used1. clear Hentry.
           exists (l :: frontS). cbn [concat]. split; [| split; [| split]].
           -- rewrite EfS. reflexivity.
           -- discriminate.
           -- rewrite app_length, EuS. reflexivity.
           -- apply (pe_compound c off lo l (line_no l) (line_col l2) (concat frontS) dsS hiS);
-               [exact Hline | exact Hlo | apply no_def_b_sound; exact Hnd | exact Hdeep | exact HpbS].
-      + destruct (no_def_b l) eqn:Hnd; [| discriminate].
-        inversion Hentry; subst ds1 rest1 mid used1.
-        exists [l]. cbn [concat]. rewrite (app_nil_r l). split; [reflexivity |]. split; [discriminate |].
-        split; [reflexivity |].
-        apply pe_line; [exact Hline | exact Hlo | apply no_def_b_sound; exact Hnd]. }
+               [exact Hline | exact Hlo | exact Hnd | exact Hdeep | exact HpbS].
+        * inversion Hentry; subst ds1 rest1 mid used1.
+          exists [l]. cbn [concat]. rewrite (app_nil_r l). split; [reflexivity |]. split; [discriminate |].
+          split; [reflexivity |].
+          apply pe_line; [exact Hline | exact Hlo | exact Hnd]. }
   clear Hentry.
   destruct Hent as (front1 & Ef1 & Hne1 & Eu1 & Hpe1).
   (* further entries of the same block *)
